@@ -31,6 +31,7 @@ use serde_json::{Value, json};
 use verif_harness::*;
 
 const INLINE_LIMIT: usize = 700;
+const BIG_CHUNKS: usize = 1024;
 
 fn mode_of(s: &str) -> CompressionMode {
     #[allow(deprecated)]
@@ -361,16 +362,41 @@ fn build_and_observe(
     let ranges = raw_ranges(&bytes);
     let hs = if bytes.len() >= 8 { u32::from_be_bytes([bytes[4], bytes[5], bytes[6], bytes[7]]) as usize } else { 0 };
     let head_len = hs.max(8).min(bytes.len()).min(64 * 1024);
-    if inline {
-        ev["bytes"] = bytes_json(&bytes);
-    } else {
-        ev["head"] = bytes_json(&bytes[..head_len]);
-    }
     ev["ranges_ok"] = json!(ranges.is_some());
     let rs = ranges.unwrap_or_default();
-    ev["ranges"] = Value::Array(rs.iter().map(|(o, l)| json!([o, l])).collect());
-    ev["md5s"] = Value::Array(rs.iter().map(|(o, l)| md5_json(&bytes[*o..*o + *l])).collect());
-    ev["firsts"] = Value::Array(rs.iter().map(|(o, l)| if *l > 0 { json!(bytes[*o]) } else { json!(256) }).collect());
+    // Containers with more than BIG_CHUNKS chunks (chunk-count boundaries 2^8, 2^16 of the 24-bit count) are recorded
+    // in summary form: the first 12 bytes (magic, header size, table format, count - read by the monitor itself),
+    // counts and sums, and for every per-chunk column of the table one digest of the column as written next to one
+    // digest of the column as measured; the monitor compares the pairs.
+    let big = hs > 12 + 40 * BIG_CHUNKS || rs.len() > BIG_CHUNKS;
+    let mut tbl_ds: Vec<u8> = vec![];
+    if big {
+        ev["big"] = json!(true);
+        ev["head"] = bytes_json(&bytes[..12.min(bytes.len())]);
+        ev["nranges"] = json!(rs.len());
+        ev["sum_cs"] = json!(rs.iter().map(|(_, l)| *l).sum::<usize>());
+        ev["min_cs"] = json!(rs.iter().map(|(_, l)| *l).min().unwrap_or(0));
+        let entry = if bytes.len() > 8 && bytes[8] == 0x10 { 40 } else { 24 };
+        let mut tbl_md5: Vec<u8> = Vec::with_capacity(rs.len() * 16);
+        let mut calc_md5: Vec<u8> = Vec::with_capacity(rs.len() * 16);
+        for (i, (o, l)) in rs.iter().enumerate() {
+            let p = 12 + i * entry;
+            tbl_ds.extend_from_slice(&bytes[p + 4..p + 8]);
+            tbl_md5.extend_from_slice(&bytes[p + 8..p + 24]);
+            calc_md5.extend_from_slice(&md5::compute(&bytes[*o..*o + *l]).0);
+        }
+        ev["tbl_md5_dig"] = md5_json(&tbl_md5);
+        ev["calc_md5_dig"] = md5_json(&calc_md5);
+    } else {
+        if inline {
+            ev["bytes"] = bytes_json(&bytes);
+        } else {
+            ev["head"] = bytes_json(&bytes[..head_len]);
+        }
+        ev["ranges"] = Value::Array(rs.iter().map(|(o, l)| json!([o, l])).collect());
+        ev["md5s"] = Value::Array(rs.iter().map(|(o, l)| md5_json(&bytes[*o..*o + *l])).collect());
+        ev["firsts"] = Value::Array(rs.iter().map(|(o, l)| if *l > 0 { json!(bytes[*o]) } else { json!(256) }).collect());
+    }
     // the library's reader and decoder
     let parsed = match guarded(|| BlteFile::parse(&bytes).map_err(|e| e.to_string())) {
         Ok(Ok(p)) => p,
@@ -389,12 +415,21 @@ fn build_and_observe(
     ev["nparsed"] = json!(parsed.chunks.len());
     let mut parts = vec![];
     let mut any_enc = false;
+    let mut parts_ok = 0usize;
+    let mut part_lens: Vec<u8> = vec![];
     for (i, c) in parsed.chunks.iter().enumerate() {
         let enc = c.mode == CompressionMode::Encrypted;
         any_enc |= enc;
         let r = guarded(|| {
             if enc { decrypt_chunk_with_keys(&c.data, ks, i) } else { c.decompress(i) }.map_err(|e| e.to_string())
         });
+        if big {
+            if let Ok(Ok(d)) = &r {
+                parts_ok += 1;
+                part_lens.extend_from_slice(&(d.len() as u32).to_be_bytes());
+            }
+            continue;
+        }
         parts.push(match r {
             Ok(Ok(d)) => digest(&d, inline),
             Ok(Err(_)) => failed(),
@@ -404,7 +439,13 @@ fn build_and_observe(
             }
         });
     }
-    ev["parts"] = Value::Array(parts);
+    if big {
+        ev["parts_ok"] = json!(parts_ok);
+        ev["tbl_ds_dig"] = md5_json(&tbl_ds);
+        ev["parts_len_dig"] = md5_json(&part_lens);
+    } else {
+        ev["parts"] = Value::Array(parts);
+    }
     ev["dec"] = match guarded(|| parsed.decompress_with_keys(ks).map_err(|e| e.to_string())) {
         Ok(Ok(d)) => digest(&d, inline),
         Ok(Err(m)) => {
